@@ -551,7 +551,7 @@ Section Sep.
     intros (Gw & R1 & R2 & R3 & R4) Hm Hk. unfold on_store.
     destruct (Hm (w_store w) Gw) as (G1 & F1 & Q1).
     destruct (m (w_store w)) as [s' [a|e]] eqn:E; cbn [fst snd] in *.
-    - set (w' := mkW s' (w_exp w) (w_mc w) (w_cache w) (w_ev w) (w_sig w) (w_tdm w)).
+    - set (w' := mkW s' (w_exp w) (w_mc w) (w_cache w) (w_ev w) (w_sig w) (w_tdm w) (w_ready w)).
       assert (Iw' : Inv w') by (repeat split; auto; apply G1).
       destruct (Hk w' a Iw' (Q1 a eq_refl)) as (Ik & Es & Ee & Em).
       split; [exact Ik|]. rewrite Es, Ee, Em. cbn. repeat split; auto; apply F1.
@@ -581,6 +581,18 @@ Section Sep.
   Proof.
     intros (Gw & R1 & R2 & R3 & R4) Ho. unfold set_cache; cbn. repeat split; auto; try apply Gw.
     apply setroot_ok; assumption.
+  Qed.
+
+  Lemma set_ready_inv w i b : Inv w ->
+    Inv (set_ready w i b) /\ w_store (set_ready w i b) = w_store w /\ w_exp (set_ready w i b) = w_exp w /\ w_mc (set_ready w i b) = w_mc w.
+  Proof.
+    intros (Gw & R1 & R2 & R3 & R4). unfold set_ready; cbn. repeat split; auto; apply Gw.
+  Qed.
+
+  Lemma set_ready_Tr w i b : Inv w -> Tr w (set_ready w i b).
+  Proof.
+    intros Iw. destruct (set_ready_inv w i b Iw) as (I1 & S1 & E1 & M1).
+    split; [exact I1|]. rewrite S1, E1, M1. repeat split; auto.
   Qed.
 
   Lemma step_Tr o w : Inv w -> Tr w (fst (step o w)).
@@ -641,6 +653,7 @@ Section Sep.
       destruct (getroot (w_ev w) i) as [ev|] eqn:Ee; [|apply Tr_refl; exact Iw].
       pose proof (getroot_ok _ _ _ R2 Ee) as Hev. cbn [fst].
       destruct (set_tdm_inv w i (Some ev) Iw Hev) as (I1 & S1 & E1 & M1).
+      eapply Tr_trans; [|apply set_ready_Tr; exact I1].
       split; [exact I1|]. rewrite S1, E1, M1. repeat split; auto.
     - (* InitPre *)
       destruct (getroot (w_tdm w) i) as [t|] eqn:Et; [|apply Tr_refl; exact Iw].
@@ -649,26 +662,36 @@ Section Sep.
       intros w' _ Iw' _. repeat split; auto; apply Iw'.
     - (* InitSelect *)
       destruct (getroot (w_tdm w) i) as [t|] eqn:Et; [|apply Tr_refl; exact Iw].
-      destruct es as [| |sl]; [apply Tr_refl; exact Iw | apply Tr_refl; exact Iw|].
+      destruct es as [| |sl]; [apply Tr_refl; exact Iw | cbn [fst]; apply set_ready_Tr; exact Iw|].
       eapply on_store_Tr; [exact Iw | apply H_select|].
-      intros w' t' Iw' Ht'. apply set_tdm_inv; assumption.
+      intros w' t' Iw' Ht'. destruct (set_tdm_inv w' i (Some t') Iw' Ht') as (I1 & S1 & E1 & M1).
+      destruct (set_ready_inv _ i true I1) as (I2 & S2 & E2 & M2).
+      split; [exact I2|]. rewrite S2, S1, E2, E1, M2, M1. auto.
     - (* InitFinish *)
       destruct (getroot (w_tdm w) i) as [t|] eqn:Et; [|apply Tr_refl; exact Iw].
       pose proof (getroot_ok _ _ _ R4 Et) as Ht.
-      eapply on_store_Tr with (Q := fun _ => True); [exact Iw | |].
-      + eapply hb with (Q := fun _ => True).
-        * destruct srt as [[f perm]|]; [apply H_sort; exact Ht | apply hret; exact I].
-        * intros _ _. apply H_set_fields; exact Ht.
-      + intros w' _ Iw' _. repeat split; auto; apply Iw'.
+      match goal with |- context [on_store w ?m ?k] =>
+        assert (T1 : Tr w (fst (on_store w m k))) end.
+      { eapply on_store_Tr with (Q := fun _ => True); [exact Iw | |].
+        - destruct srt as [[f perm]|]; [apply H_sort; exact Ht | apply hret; exact I].
+        - intros w' _ Iw' _. apply set_ready_inv; exact Iw'. }
+      match goal with |- context [on_store w ?m ?k] => destruct (on_store w m k) as [w1 [u|e]] end;
+        cbn [fst] in *; [|exact T1].
+      eapply Tr_trans; [exact T1|]. pose proof T1 as (I1 & _).
+      eapply on_store_Tr with (Q := fun _ => True); [exact I1 | apply H_set_fields; exact Ht|].
+      intros w' _ Iw' _. repeat split; auto; apply Iw'.
     - (* Evaluate *)
       destruct (getroot (w_tdm w) i) as [t|] eqn:Et; [|apply Tr_refl; exact Iw].
+      destruct (nth i (w_ready w) false); [|apply Tr_refl; exact Iw].
       pose proof (getroot_ok _ _ _ R4 Et) as Ht.
       eapply on_store_Tr with (Q := fun _ => True); [exact Iw | apply H_set_fields; exact Ht|].
       intros w' _ Iw' _. repeat split; auto; apply Iw'.
     - (* UnblindCopy *)
       destruct (nth_error (w_exp w) i) as [e|]; [|apply Tr_refl; exact Iw].
       eapply on_store_Tr; [exact Iw | apply H_copy|].
-      intros w' t Iw' Ht. apply set_tdm_inv; assumption.
+      intros w' t Iw' Ht. destruct (set_tdm_inv w' i (Some t) Iw' Ht) as (I1 & S1 & E1 & M1).
+      destruct (set_ready_inv _ i false I1) as (I2 & S2 & E2 & M2).
+      split; [exact I2|]. rewrite S2, S1, E2, E1, M2, M1. auto.
     - (* DropEvents *)
       cbn [fst].
       destruct (set_ev_inv w i None Iw I) as (I1 & S1 & E1 & M1).
@@ -1272,7 +1295,7 @@ Lemma on_store_top {A} (w : world) (m : M A) (k : world -> A -> world) (Q : A ->
   old_untouched (w_store w) (w_store (fst r)) /\
   good (length (sb (w_store w))) (length (st (w_store w))) (w_store (fst r)) /\
   (snd r = Ok tt -> exists a, snd (m (w_store w)) = Ok a /\ Q a /\
-                              fst r = k (mkW (fst (m (w_store w))) (w_exp w) (w_mc w) (w_cache w) (w_ev w) (w_sig w) (w_tdm w)) a).
+                              fst r = k (mkW (fst (m (w_store w))) (w_exp w) (w_mc w) (w_cache w) (w_ev w) (w_sig w) (w_tdm w) (w_ready w)) a).
 Proof.
   intros Hm Hk r. subst r. unfold on_store.
   destruct (top_run m Q (w_store w) Hm) as (O & G & Qa).
